@@ -12,7 +12,9 @@ Case (plain literal, replayable):
      not an Exception": identical trace, only do() re-raises it — the adapter reports which).
      IMPLEMENTATION-SIDE ONLY (the model driver answers `(unmodelled)`, see unmodelled()): act "kbint" / "sysexit"
      (BaseException raised by enter) and pseudo steps (ops, "oncease") / (ops, "onexit") = scheduler ops the doer
-     issues from its cease / exit action (re-entrant forced shutdown).
+     issues from its cease / exit action (re-entrant forced shutdown);
+     op ("xextend", [gid, k..]) = the doer calls extend() on ANOTHER scheduler (DoDoer gid, with gid's pool);
+     a 7th case field `extras` = (("cleanfail", [ids]),): the clean action of those doers (leaf or DoDoer) raises.
   Ops act on the doer's OWN scheduler (the Doist for top level / Doist pool, the enclosing DoDoer otherwise);
   extend indices refer to that scheduler's pool.  The Doist has id 0.
 
@@ -63,7 +65,7 @@ def walk(specs, parent=0):
 
 
 def all_specs(case):
-    _, tock, start, limit, pool, specs = case
+    _, tock, start, limit, pool, specs = case[:6]
     out = list(walk(specs, 0))
     for x in walk(pool, 0):
         out.append((x[0], x[1], True if (x[1] == 0 and x[0] in pool) else x[2]))
@@ -119,11 +121,20 @@ CLOSE_OUTS = ("oncease", "onexit")
 
 def unmodelled(case):
     """cases the Lean model does not cover: ops issued from close actions, BaseException raised by an enter"""
+    if len(case) > 6 and case[6]:
+        return True
     for s, _, _ in all_specs(case):
         if s[0] == "leaf":
-            if s[3] in ("kbint", "sysexit") or any(o in CLOSE_OUTS for _, o in s[4]):
+            if s[3] in ("kbint", "sysexit") or any(o in CLOSE_OUTS for _, o in s[4]) or has_op(s, "xextend"):
                 return True
     return False
+
+
+def extras_of(case, key):
+    for k, v in (case[6] if len(case) > 6 else ()):
+        if k == key:
+            return list(v)
+    return []
 
 
 def raises_bexc(spec):
@@ -143,7 +154,7 @@ def enter_bexc(spec):
 def request(case, fuel=FUEL):
     if unmodelled(case):
         return ("unmodelled",)
-    _, tock, start, limit, pool, specs = case
+    _, tock, start, limit, pool, specs = case[:6]
     return ("run", ("tock", sx.F(tock)), ("start", sx.F(start)),
             ("limit", None if limit is None else sx.F(abs(float(limit)))), ("fuel", fuel),
             ("pool", [sx_spec(s) for s in pool]), ("specs", [sx_spec(s) for s in specs]))
@@ -172,6 +183,7 @@ class Rec:
         self.obj = {}       # id -> python doer object
         self.pools = {}     # scheduler id -> [objects]
         self.sched = {}     # scheduler id -> scheduler object
+        self.cleanfail = set()   # ids whose clean action raises
         self.dead = False   # set once a Runaway has been reported: later events (GC closes) are dropped
         self.cycles = 0
 
@@ -203,6 +215,10 @@ class Leaf:
         if self.act == "sysexit":
             raise SystemExit(3)
 
+    def clean_fault(self):
+        if self.id in self.rec.cleanfail:
+            raise SchedErr(f"clean {self.id}")
+
     def close_ops(self, which, tyme):
         if self.cops[which] and not self.rec.dead:
             self.run_ops(self.cops[which], tyme)
@@ -213,6 +229,12 @@ class Leaf:
             if op[0] == "extend":
                 pool = self.rec.pools[self.sid]
                 s.extend([pool[k] for k in op[1] if 0 <= k < len(pool)])
+            elif op[0] == "xextend":          # extend() on another scheduler (a DoDoer), with that scheduler's pool
+                gid = op[1][0]
+                g, pool = self.rec.sched[gid], self.rec.pools[gid]
+                g.extend([pool[k] for k in op[1][1:] if 0 <= k < len(pool)])
+                self.rec.ev(gid, "doers", tyme(), tuple(self.ids_of(g.doers)))
+                continue
             else:
                 s.remove([self.rec.obj[i] for i in op[1] if i in self.rec.obj])
             self.rec.ev(self.sid, "doers", tyme(), tuple(self.ids_of(s.doers)))
@@ -262,6 +284,7 @@ def _genfn(L):
             raise
         else:
             rec.ev(i, "clean", tymth())
+            L.clean_fault()
         finally:
             rec.ev(i, "exit", tymth())
             L.close_ops("exit", tymth)
@@ -284,6 +307,7 @@ def build_leaf(rec, spec, sid):
 
             def clean(self):
                 rec.ev(L.id, "clean", self.tyme)
+                L.clean_fault()
 
             def cease(self):
                 rec.ev(L.id, "cease", self.tyme)
@@ -348,6 +372,8 @@ def build_group(rec, spec):
 
         def clean(self):
             rec.ev(gid, "clean", self.tyme)
+            if gid in rec.cleanfail:
+                raise SchedErr(f"clean {gid}")
 
         def cease(self):
             rec.ev(gid, "cease", self.tyme)
@@ -413,8 +439,9 @@ def make_doist(rec, tock, start, limit):
 def run_program(case, mode="do"):
     """run the REAL scheduler on the case; mode "do" (blocking loop) or "ado" (asyncio)"""
     core.assert_tree()
-    _, tock, start, limit, pool, specs = case
+    _, tock, start, limit, pool, specs = case[:6]
     rec = Rec()
+    rec.cleanfail = set(extras_of(case, "cleanfail"))
     doist = make_doist(rec, tock, start, limit)
     rec.sched[0] = doist
     doers = [build(rec, s, 0) for s in specs]
@@ -477,9 +504,9 @@ class _Gen:
         self.tock = rng.choice(TOCKS)
         # "selfrm": pool doers may remove themselves while running and be extended again (known finding C01-K2)
         self.p_ops = {"mixed": 0.15, "ops": 0.45, "faults": 0.08, "time": 0.0, "plain": 0.0, "selfrm": 0.5,
-                      "bexc": 0.12, "closeops": 0.3, "benter": 0.12}[profile]
+                      "bexc": 0.12, "closeops": 0.3, "benter": 0.12, "actfault": 0.1, "xext": 0.0, "lastop": 0.1}[profile]
         self.p_fault = {"mixed": 0.08, "ops": 0.05, "faults": 0.22, "time": 0.0, "plain": 0.0, "selfrm": 0.03,
-                        "bexc": 0.2, "closeops": 0.06, "benter": 0.1}[profile]
+                        "bexc": 0.2, "closeops": 0.06, "benter": 0.1, "actfault": 0.03, "xext": 0.0, "lastop": 0.0}[profile]
         self.always = False
         # "lagging" programs: many yields shorter than the tock, then longer non-multiples (cumulative due tymes matter)
         self.lag = profile in ("time", "plain", "mixed") and rng.random() < 0.4
@@ -514,8 +541,19 @@ class _Gen:
             act = ("done", self.retv())
         steps = []
         n = r.choice([0, 1, 2, 3, 3, 4, 5, 6]) if not self.lag else r.choice([3, 5, 6, 7, 8])
+        if self.profile == "lastop":
+            n = r.choice([1, 2, 2, 3])
         for j in range(n):
             ops = []
+            if self.profile == "lastop" and j == n - 1 and allow_ops and r.random() < 0.75:
+                # an op in the FINAL step (the doer returns right after it): extend, or remove of the other members
+                oth = [x for x in sibs() if x != i]
+                if npool and (r.random() < 0.5 or not oth):
+                    ops.append(("extend", [r.randrange(npool) for _ in range(r.choice([1, 2]))]))
+                elif oth:
+                    ops.append(("remove", oth if r.random() < 0.6 else [r.choice(oth)]))
+                steps.append((ops, ("ret", self.retv())))
+                break
             if allow_ops and r.random() < self.p_ops:
                 for _ in range(r.choice([1, 1, 1, 2])):
                     if npool and r.random() < 0.5:
@@ -598,6 +636,10 @@ def gen_case(rng, profile="mixed"):
     npool = rng.choice([0, 1, 2, 3]) if g.p_ops else 0
     if profile == "closeops":
         nk, npool = max(nk, 3), max(npool, 1)
+    if profile == "lastop":
+        nk, npool = rng.choice([1, 1, 2, 3]), rng.choice([1, 1, 2])
+    if profile == "xext":
+        return gen_xext(rng, g)
     specs, pool = g.members(0, nk, npool)
     t = g.tock
     limits = [0.0, t / 2, t, 2.5 * t, 3 * t, 0.3, 1.0, -2 * t, 7 * t, 12 * t]
@@ -607,7 +649,34 @@ def gen_case(rng, profile="mixed"):
         limit = rng.choice(limits)
     else:
         limit = None
+    if profile == "actfault":
+        ids = [s[1] for s, _, _ in walk(specs, 0)] + [s[1] for s, _, _ in walk(pool, 0)]
+        return ("run", t, rng.choice(STARTS), limit, pool, specs, (("cleanfail", sorted(rng.sample(ids, min(len(ids), rng.choice([1, 1, 2, 3]))))),))
     return ("run", t, rng.choice(STARTS), limit, pool, specs)
+
+
+def gen_xext(rng, g):
+    """a DoDoer(always) that goes idle (all kids complete) and is then extended by a SIBLING scheduled after it;
+    the run stops (sibling raises / limit) before or after the group's next recur"""
+    t = g.tock
+    y = lambda v=0.0: ([], ("yield", v))
+    specs = []
+    groups = []
+    for _ in range(rng.choice([1, 1, 2])):
+        gid = g.nid()
+        kids = [("leaf", g.nid(), rng.choice(SHAPES), "ok", [y()] * rng.choice([0, 1, 2])) for _ in range(rng.choice([0, 1, 2]))]
+        gpool = [("leaf", g.nid(), rng.choice(SHAPES), "ok", [y(rng.choice([0.0, t, 2 * t]))] * rng.choice([1, 3, 5])) for _ in range(rng.choice([1, 2]))]
+        specs.append(("group", gid, rng.choice([0.0, 0.0, t]), True, kids, gpool))
+        groups.append((gid, len(gpool)))
+    if rng.random() < 0.4:
+        specs.insert(0, ("leaf", g.nid(), "doify", "ok", [y()] * 6))
+    for _ in range(rng.choice([1, 1, 2])):
+        gid, np_ = rng.choice(groups)
+        pre = rng.choice([1, 2, 3, 4])
+        op = ("xextend", [gid] + [rng.randrange(np_) for _ in range(rng.choice([1, 2]))])
+        tail = rng.choice([[([op], "raise")], [([op], ("yield", 0.0)), ([], "raise")], [([op], ("yield", 0.0))] + [y()] * 4, [([op], ("ret", True))]])
+        specs.append(("leaf", g.nid(), rng.choice([s for s in SHAPES if s != "plain"]), "ok", [y()] * pre + tail))
+    return ("run", t, rng.choice(STARTS), rng.choice([2 * t, 3 * t, 4 * t, 6 * t, 2.5 * t]), [], specs)
 
 
 # --------------------------------------------------------------------------- observation wrapper, shrinking
@@ -660,7 +729,15 @@ def has_always(specs):
 
 
 def shrink_case(case):
-    _, tock, start, limit, pool, specs = case
+    if len(case) > 6:
+        ex = case[6]
+        for c in shrink_case(case[:6]):
+            yield c + (ex,)
+        for k, v in ex:
+            for n in range(len(v)):
+                yield case[:6] + (((k, list(v[:n]) + list(v[n + 1:])),),) if len(v) > 1 else case[:6]
+        return
+    _, tock, start, limit, pool, specs = case[:6]
     for s2 in _shrink_specs(list(specs)):
         yield ("run", tock, start, limit, pool, s2)
     for p2 in _shrink_specs(list(pool)):
@@ -677,16 +754,24 @@ def shrink_case(case):
 
 def case_valid(case):
     """termination guard used by shrink/mutate: an `always` group needs a limit"""
-    _, tock, start, limit, pool, specs = case
+    _, tock, start, limit, pool, specs = case[:6]
     if tock <= 0:
         return False
     if limit is None and has_always(list(specs) + list(pool)):
         return False
     if limit is None and any(has_op(x, "extend") for x in list(specs) + list(pool)) and any(has_op(x, "remove") for x in list(specs) + list(pool)):
         return False
-    for s, _, _ in all_specs(case):
+    sp = all_specs(case)
+    groups = {s[1]: (s, inpool) for s, _, inpool in sp if s[0] == "group"}
+    for s, _, _ in sp:
         if s[0] == "leaf" and not shape_ok(s):
             return False
+        if s[0] == "leaf":
+            for ops, _ in s[4]:
+                for op in ops:
+                    # extend() on another scheduler: only an `always` DoDoer that is entered with the run (it stays alive)
+                    if op[0] == "xextend" and not (op[1] and op[1][0] in groups and groups[op[1][0]][0][3] and not groups[op[1][0]][1]):
+                        return False
     return True
 
 
@@ -702,7 +787,7 @@ def _map_leaves(specs, f):
 
 def mutate_case(rng, case):
     """neighbourhood for the failing-input search: shrinks + a fault / op / tock planted at a random place"""
-    _, tock, start, limit, pool, specs = case
+    _, tock, start, limit, pool, specs = case[:6]
     out = [c for c in shrink_case(case) if case_valid(c)][:60]
     leaves = [s for s, _, _ in all_specs(case) if s[0] == "leaf" and s[4]]
     pm = parent_map(case)
@@ -743,7 +828,7 @@ def mutate_case(rng, case):
 
 def spec_index(case):
     """id -> spec, id -> scheduler id, scheduler id -> [pool ids], scheduler id -> [kid ids]"""
-    _, tock, start, limit, pool, specs = case
+    _, tock, start, limit, pool, specs = case[:6]
     spec, par, pools, kids = {}, {}, {0: [s[1] for s in pool]}, {0: [s[1] for s in specs]}
     for s, p, _ in all_specs(case):
         spec[s[1]] = s
@@ -790,7 +875,7 @@ class SchedCheck(core.Check):
     assumptions = ["ops are issued by a running doer on its own scheduler only; a pool doer does not remove itself; a removed pool DoDoer whose children issue ops is not extended again (the generators respect this)",
                    "py3.12: generator.close() returns None; Doer/DoDoer return self.done on close, so 3.13 semantics assign the same value",
                    "SystemExit raised by a doer is modelled as the same kind as KeyboardInterrupt (BaseException that is not Exception): the trace is identical, only do() re-raises it; the adapter reports which and the oracle checks it",
-                   "IMPLEMENTATION-SIDE ONLY (driver answers (unmodelled); oracle on the real run; about a quarter of the C01/C02 cases): scheduler ops issued from a doer's cease/exit action (re-entrant forced shutdown) and KeyboardInterrupt/SystemExit raised inside enter — the Lean theorems do not cover these"]
+                   "IMPLEMENTATION-SIDE ONLY (driver answers (unmodelled); oracle on the real run; about a quarter of the C01/C02 cases): scheduler ops issued from a doer's cease/exit action (re-entrant forced shutdown), KeyboardInterrupt/SystemExit raised inside enter, a clean action (leaf or DoDoer) that raises, and extend() called on ANOTHER scheduler (an idle always-DoDoer extended by a sibling) — the Lean theorems do not cover these"]
 
     def corpus(self):
         return list(CORPUS)
@@ -824,7 +909,7 @@ class SchedCheck(core.Check):
 
     def features(self, case, obs):
         d = obs.d
-        _, tock, start, limit, pool, specs = case
+        _, tock, start, limit, pool, specs = case[:6]
         f = ["raised:" + d["raised"], "done:%s" % d["done"], "limit:" + ("none" if limit is None else "zero" if limit == 0 else "neg" if limit < 0 else "pos"),
              "events~%d" % (len(d["trace"]) // 25 * 25), "start:" + ("0" if start == 0 else "non0")]
         kinds = {e[1] for e in d["trace"]}
@@ -906,6 +991,11 @@ CORPUS = [
     ("run", 0.5, 1.0, 5.0, [], [("group", 9, 0.0, False, [_lf(1, [_y(), ([("extend", [0])], ("ret", None))])], [_lf(5, [], "genrecur", ("done", None))])]),
     # a doer that lags behind (yields shorter than the tock) and then yields a long non-multiple: due tymes are cumulative
     ("run", 1.0, 0.0, None, [], [_lf(1, [_y(0.5)] * 4 + [_y(2.5), _y(0.5), _y(2.5)], "plain"), _lf(2, [_y(0.25)] * 6 + [_y(3.25), _y(None), _y(1.75)], "genrecur")]),
+    # an op in the FINAL step of the last live doer: extend (the run must go on), remove of already-run siblings (the run ends now)
+    ("run", 1.0, 0.0, None, [_lf(7, [_y(), _y()], "plain")], [_lf(1, [_y(), ([("extend", [0])], ("ret", True))])]),
+    ("run", 0.5, 1.0, None, [_lf(7, [_y()] * 3), _lf(8, [_y(1.0)] * 2, "genrecur")], [_lf(1, [_y()]), _lf(2, [_y(), _y(), ([("extend", [1, 0])], ("ret", None))], "bound")]),
+    ("run", 1.0, 0.0, None, [], [_lf(1, [_y()] * 9), _lf(2, [_y()] * 9, "plain"), _lf(3, [_y(), _y(), ([("remove", [1, 2])], ("ret", True))], "doize")]),
+    ("run", 0.25, 0.0, 9.0, [], [("group", 9, 0.0, False, [_lf(1, [_y()] * 9), _lf(2, [_y(), ([("remove", [1])], ("ret", True))])], [])]),
     # done at enter in all shapes, nothing left: one cycle
     ("run", 0.1, 0.3, None, [], [_lf(1, [], "plain", ("done", True)), _lf(2, [], "genrecur", ("done", None)), _lf(3, [], "doize", ("done", False)), _lf(4, [], "bound", ("done", True))]),
 ]
@@ -1122,3 +1212,13 @@ def gen_runs(rng):
         st = rng.choice([None, None, None, 0.0, 2.5, 10.0])
         calls.append((rng.choice(["do", "ado"]), st, lm, pool, specs))
     return ("runs", t, start0, limit0, calls)
+
+
+# round-2 seeded classes (implementation-side only): a clean action that raises; an idle DoDoer(always) extended by a sibling
+CORPUS_R2 = [
+    ("run", 1.0, 0.0, 9.0, [], [_lf(1, [_y()] * 6), ("group", 9, 0.0, False, [_lf(2, [_y()]), _lf(3, [_y(), _y()], "plain")], []), _lf(4, [_y()] * 6)], (("cleanfail", [9]),)),
+    ("run", 1.0, 0.0, 9.0, [], [("group", 8, 0.0, False, [("group", 9, 0.0, False, [_lf(2, [_y()])], []), _lf(3, [_y()] * 5)], []), _lf(4, [_y()] * 6, "genrecur")], (("cleanfail", [9, 2]),)),
+    ("run", 1.0, 0.0, 9.0, [], [_lf(1, [_y()] * 6, "bound"), _lf(2, [_y(), _y()], "plain"), _lf(3, [_y()] * 6)], (("cleanfail", [2]),)),
+    ("run", 1.0, 0.0, 9.0, [], [("group", 9, 0.0, True, [_lf(1, [_y()])], [_lf(7, [_y()] * 5)]), _lf(2, [_y(), _y(), _y(), ([("xextend", [9, 0])], "raise")])]),
+    ("run", 1.0, 0.0, 4.0, [], [_lf(1, [_y()] * 9), ("group", 9, 0.0, True, [], [_lf(7, [_y(2.0)] * 5, "plain")]), _lf(2, [_y(), _y(), _y(), ([("xextend", [9, 0])], ("yield", 0.0)), _y(), _y()], "genrecur")]),
+]
